@@ -6,8 +6,8 @@ import (
 	"fmt"
 	"os"
 	"runtime/debug"
+	"strings"
 	"testing"
-	"testing/synctest"
 	"time"
 )
 
@@ -23,6 +23,7 @@ type Request struct {
 	Out      string   `json:"out"`
 	KeepLog  bool     `json:"keep_log,omitempty"`
 	MaxExec  int      `json:"max_exec,omitempty"`
+	Known    []string `json:"known,omitempty"` // "<prop>|<signature>" of listed known findings
 }
 
 // RunRecord is one line of worker output.
@@ -78,6 +79,9 @@ func Main(t *testing.T, e Engine) {
 		w.Flush()
 	}
 	real, stub := e.Components()
+	for _, k := range req.Known {
+		KnownSigs[k] = true
+	}
 	switch req.Mode {
 	case "batch":
 		for i, seed := range req.Seeds {
@@ -211,39 +215,14 @@ func Shrink(t *testing.T, e Engine, p *Plan, prop, sig string, maxExec int) (*Pl
 	return cur, execs
 }
 
-// SimEpoch is where every bubble's fake clock is moved before anything runs
-// (a bubble starts at 2000-01-01; the chain's genesis is 2017-12-22).
-var SimEpoch = time.Date(2019, 1, 1, 0, 0, 0, 0, time.UTC)
-
-// Bubble runs f inside a testing/synctest bubble: fake clock, quiescence
-// detection. Goroutines the code under test leaves parked (abandoned crashed
-// instances, leveldb compaction) make synctest panic at the end of the bubble;
-// that panic is expected and swallowed here.
-func Bubble(t *testing.T, f func()) {
-	var inner interface{}
-	func() {
-		defer func() {
-			if r := recover(); r != nil {
-				if s, ok := r.(string); ok && len(s) >= 8 && s[:8] == "deadlock" {
-					return
-				}
-				if e, ok := r.(error); ok && len(e.Error()) >= 8 && e.Error()[:8] == "deadlock" {
-					return
-				}
-				panic(r)
-			}
-		}()
-		synctest.Test(t, func(t *testing.T) {
-			defer func() {
-				if r := recover(); r != nil {
-					inner = r
-				}
-			}()
-			time.Sleep(time.Until(SimEpoch))
-			f()
-		})
-	}()
-	if inner != nil {
-		panic(inner)
+// trimStack keeps the frames below the panic, shortened.
+func trimStack(b []byte) string {
+	s := string(b)
+	if i := strings.Index(s, "panic("); i >= 0 {
+		s = s[i:]
 	}
+	if len(s) > 2500 {
+		s = s[:2500]
+	}
+	return s
 }
